@@ -14,6 +14,7 @@ CONSTANTS
   Tags = {"t"}
   LoadLocks = FALSE
   SaveLocks = TRUE
+  TruncFirst = FALSE
   Reread = TRUE
 INVARIANTS
   NoTornRead
